@@ -283,10 +283,12 @@ def run_with_fifos(cmd, d, env, case, timeout):
                 return
             try:
                 os.set_blocking(fd, True)
-                view = memoryview(data); piece = case.get("fifo_piece") or 65536
+                # short pieces only for the head of the file (the reader's first reads see them one by one); the rest in large writes, so that the
+                # delivery of a big file never takes long on a loaded machine
+                view = memoryview(data); piece = case.get("fifo_piece") or 65536; sent = 0
                 while view:
-                    n = os.write(fd, view[:piece]); view = view[n:]
-                    if piece < 64: time.sleep(0.0002)       # let the reader see the short piece on its own
+                    n = os.write(fd, view[:piece if sent < 256 else 65536]); view = view[n:]; sent += n
+                    if piece < 64 and sent <= 256: time.sleep(0.0002)
             except OSError: pass
             finally: os.close(fd)
             return
